@@ -313,3 +313,62 @@ Proof.
     + rewrite Hd in Hd'. discriminate.
     + rewrite Hr. cbn. apply (base_agrees_with_response_same_tokens raw r0 b Hu Hb).
 Qed.
+
+(* ---------- 6. the pre-decoder reads the received bytes DIRECTLY (Schema.view_direct): no etree serialisation, hence no
+   second end-of-line normalisation.  On a tree without U+000D in its values the two views are the same; with one (it can
+   only have come through a character reference) they are not: finding F13. ---------- *)
+From V Require Import P_Ns.
+
+Fixpoint cr_free_str (s : string) : bool :=
+  match s with EmptyString => true | String c r => negb (Ascii.eqb c "013"%char) && cr_free_str r end.
+
+Fixpoint cr_free (n : node) : bool :=
+  match n with
+  | Elem _ _ a k => forallb (fun x => cr_free_str (at_val x)) a && forallb cr_free k
+  | Text s => cr_free_str s
+  | _ => true
+  end.
+
+Lemma cr_normalise_id s : cr_free_str s = true -> cr_normalise s = s.
+Proof.
+  induction s as [|c r IH]; [reflexivity|]. cbn [cr_free_str cr_normalise]. intros H.
+  apply andb_true_iff in H as [Hc Hr]. apply negb_true_iff in Hc. rewrite Hc, (IH Hr). reflexivity.
+Qed.
+
+Lemma view_direct_cr_free : forall n ns, cr_free n = true -> view_direct ns n = view ns n.
+Proof.
+  induction n as [sp tg attrs kids IHk | | | | ] using node_ind'; intros ns H; try reflexivity.
+  - cbn [cr_free] in H. apply andb_true_iff in H as [Ha Hk]. cbn [view view_direct]. cbv zeta.
+    f_equal. f_equal.
+    + apply map_ext_in. intros a Hin. rewrite forallb_forall in Ha. rewrite (cr_normalise_id _ (Ha a Hin)). reflexivity.
+    + induction kids as [|x r IHr]; [reflexivity|]. cbn [flat_map forallb] in *.
+      apply andb_true_iff in Hk as [Hx Hr]. inversion IHk as [|? ? Px Pr]; subst.
+      rewrite (Px _ Hx), (IHr Pr Hr). reflexivity.
+  - cbn [cr_free] in H. cbn [view view_direct]. rewrite (cr_normalise_id _ H). reflexivity.
+Qed.
+
+Lemma unmarshal_element_direct_cr_free sch name root :
+  cr_free root = true -> unmarshal_element_direct sch name root = unmarshal_element sch name root.
+Proof. intros H. unfold unmarshal_element_direct, unmarshal_element. rewrite (view_direct_cr_free root [] H). reflexivity. Qed.
+
+Lemma unmarshal_base_response_direct_cr_free root :
+  cr_free root = true -> unmarshal_base_response_direct root = unmarshal_base_response root.
+Proof. intros H. unfold unmarshal_base_response_direct, unmarshal_base_response. rewrite (unmarshal_element_direct_cr_free _ _ _ H). reflexivity. Qed.
+
+Lemma unmarshal_logout_response_direct_cr_free root :
+  cr_free root = true -> unmarshal_logout_response_direct root = unmarshal_logout_response root.
+Proof. intros H. unfold unmarshal_logout_response_direct, unmarshal_logout_response. rewrite (unmarshal_element_direct_cr_free _ _ _ H). reflexivity. Qed.
+
+(* agreement of the pre-decoder (direct reading of the duplicate-preserving root) with validation (skip / unsigned paths) *)
+Lemma predecode_direct_agrees_when_root_unsigned dsig decrypt cfg now raw r b :
+  well_formed_attrs raw = true ->
+  cr_free raw = true ->
+  (cfg_skip_sig cfg = true \/ dsig (dedupe raw) = DMissing) ->
+  validate_response_tree dsig decrypt cfg now (dedupe raw) = Ok r ->
+  unmarshal_base_response_direct raw = Ok b ->
+  br_id b = r_id r /\ br_in_response_to b = r_in_response_to r /\ br_destination b = r_destination r /\
+  br_version b = r_version r /\ br_issuer b = r_issuer r.
+Proof.
+  intros Hwf Hcr Hpath H Hb. rewrite (unmarshal_base_response_direct_cr_free raw Hcr) in Hb.
+  exact (predecode_agrees_when_root_unsigned dsig decrypt cfg now raw r b Hwf Hpath H Hb).
+Qed.
